@@ -23,7 +23,8 @@ BUDGET = 40000
 
 def gen(rng, tier):
     a = G.gen_fst(rng)
-    pool = (G.INT_STATES, "int") if a["valmode"] == "int" else None
+    pool = (G.INT_STATES, "int") if a["valmode"] == "int" else \
+        ((["0", "end", "1", "mid"], "mixed") if a["valmode"] == "mixed" else None)
     b = G.gen_fst(rng, pool=pool, allow_int=False) if pool else G.gen_fst(rng, allow_int=False)
     # one value, one hash: names shared by the operands get the same scheduler hash
     if a.get("hash") and b.get("hash"):
@@ -159,6 +160,8 @@ def _run(case, out):
         out.probe("no_final_state")
     if ca["valmode"] == "int":
         out.probe("int_states")
+    if ca["valmode"] == "mixed":
+        out.probe("int_and_str_states_mixed")
     fa = G.build(ca)
     out.sig = G.signature(fa)
     _check_rel(out, "translate", fa, ra, alpha, n)
@@ -186,6 +189,15 @@ def _run(case, out):
     _check_op(out, "add", out.call("add", lambda: x + y), M.concat(ra, rb), alpha, n)
     x, y = objs()
     _check_op(out, "kleene_star", out.call("kleene_star", x.kleene_star), M.star(ra), alpha, n)
+    # operations on the results of operations (a union of int-named operands has int and str names)
+    x, y = objs()
+    u = out.call("union", x.union, y)
+    if u is not FAILED:
+        ru = M.union(ra, rb)
+        _check_op(out, "union.kleene_star", out.call("union.kleene_star", u.kleene_star), M.star(ru), alpha, min(n, 2))
+        x2, _ = objs()
+        _check_op(out, "union.concatenate", out.call("union.concatenate", u.concatenate, x2), M.concat(ru, ra), alpha,
+                  min(n, 2))
     # automaton -> identity transducer
     rfa = GF.ref_of(case["fa"])
     afa = GF.build(case["fa"])
